@@ -27,7 +27,8 @@ type HarnessSpec struct {
 	Explore   *int           `json:"explore,omitempty"`
 	ExploreT  *int           `json:"explore_thorough,omitempty"`
 	MaxFaults *int           `json:"max_faults,omitempty"`
-	Abstract  bool           `json:"abstract,omitempty"`
+	Solver    string         `json:"solver,omitempty"`    // primary incremental solver (default z3-new)
+	Precise   bool           `json:"precise,omitempty"`   // do not use the tier-1 float abstraction
 	NoReplay  bool           `json:"no_replay,omitempty"` // findings are schedule events (replayed inside gosym only)
 	Params    map[string]int `json:"params,omitempty"`
 	ParamsT   map[string]int `json:"params_thorough,omitempty"`
@@ -193,7 +194,12 @@ func cmdCheck(args []string) int {
 				opts.Params[k] = v
 			}
 		}
-		smt.Abstract = h.Abstract
+		smt.Abstract = !h.Precise
+		smt.SolverPath = "z3-new"
+		if h.Solver != "" {
+			smt.SolverPath = h.Solver
+		}
+		smt.CVC5LimitMs = opts.AssertTimeMs
 		maxPaths := h.MaxPaths
 		if maxPaths == 0 {
 			maxPaths = 400000
@@ -257,11 +263,9 @@ func cmdCheck(args []string) int {
 		for _, k := range sites {
 			fsite := bySite[k]
 			reproduced := false
+			spurious := 0
 			var lastOut string
-			for n, f := range fsite {
-				if n >= 4 {
-					break
-				}
+			try := func(f interp.Finding, n int) bool {
 				rf := replayFile{Property: *prop, Harness: h.ID, Func: h.Func, Site: f.Site, Kind: f.Kind, Msg: f.Msg,
 					Inputs: f.Inputs, Choices: f.Choices, Tier: *tier, Params: opts.Params, Decision: f.Decisions, Explore: opts.Explore}
 				path := filepath.Join(verifDir, "replays", *prop, sanitize(h.ID+"-"+f.Site)+fmt.Sprintf("-%d.json", n))
@@ -272,15 +276,14 @@ func cmdCheck(args []string) int {
 					// schedule / executor events: the decision vector replays them inside gosym
 					violLines = append(violLines, fmt.Sprintf("VIOLATION property=%s replay=%s", *prop, path))
 					fmt.Printf("  %s %s: %s (executor event; replay inside gosym: gosym replay %s)\n", f.Kind, f.Site, f.Msg, path)
-					reproduced = true
 					violations++
-					break
+					return true
 				}
 				if rp == nil {
 					rp, err = newReplayer(h.Func)
 					if err != nil {
 						problems = append(problems, h.ID+": cannot build native replay binary: "+err.Error())
-						break
+						return false
 					}
 				}
 				ok, out := rp.run(path, f.Kind)
@@ -289,11 +292,59 @@ func cmdCheck(args []string) int {
 				if ok {
 					violLines = append(violLines, fmt.Sprintf("VIOLATION property=%s replay=%s", *prop, path))
 					fmt.Printf("  %s %s reproduced natively: %s\n", f.Kind, f.Site, firstLine(out))
-					reproduced = true
 					violations++
-					break
+					return true
 				}
 				os.Remove(path)
+				return false
+			}
+			for n, f := range fsite {
+				if n >= 4 {
+					break
+				}
+				if try(f, n) {
+					reproduced = true
+					break
+				}
+			}
+			if !reproduced && smt.Abstract && rp != nil {
+				// tier 3: re-decide the failing paths with precise floating point
+				smt.Abstract = false
+				popts := *opts
+				popts.AssertTimeMs = opts.AssertTimeMs * 2
+				sess, serr := smt.NewSession(popts.TimeoutMs)
+				if serr == nil {
+					undecided := 0
+					for n, f := range fsite {
+						if n >= 6 {
+							undecided += len(fsite) - n
+							break
+						}
+						res := interp.RunPath(l.world, fn, f.Decisions, &popts, sess)
+						stats.Merge(res.Stats)
+						hit := false
+						for _, pf := range res.Findings {
+							hit = true
+							if try(pf, 100+n) {
+								reproduced = true
+							}
+						}
+						if reproduced {
+							break
+						}
+						if !hit && len(res.Unknowns) == 0 && (res.Outcome == "ok" || res.Outcome == "infeasible") {
+							spurious++ // precise semantics: assertion holds on this path
+						} else {
+							undecided++
+						}
+					}
+					sess.Close()
+					if !reproduced && undecided == 0 && spurious > 0 {
+						fmt.Printf("  %s: %d abstract counterexample(s) refuted by the precise floating-point encoding\n", k, spurious)
+						reproduced = true // nothing to report
+					}
+				}
+				smt.Abstract = true
 			}
 			if !reproduced {
 				problems = append(problems, fmt.Sprintf("%s: counterexample at %s did not reproduce natively (encoding or stub error?): %s", h.ID, k, firstLine(lastOut)))
